@@ -36,6 +36,7 @@ const exprPkg = "rare/pkg/expressions"
 
 func runC09(c *Ctx, r *Report) {
 	c09Errors(c, r)
+	c09ArgsCompiled(c, r)
 	c09Dispatch(c, r)
 	c09Unescape(c, r)
 	c09Runes(c, r)
@@ -263,26 +264,20 @@ func c09Runes(c *Ctx, r *Report) {
 			continue
 		}
 		info := fi.Pkg.TypesInfo
-		// (1) no rune(str[i]) of a string byte
+		// (1) no byte of the template is treated as a code point (rune(s[i]), or rune(b) with b := s[i])
 		bad := token.NoPos
-		ast.Inspect(fi.Decl.Body, func(x ast.Node) bool {
-			ce, ok := x.(*ast.CallExpr)
-			if !ok || !isConversion(info, ce) || len(ce.Args) != 1 {
-				return true
-			}
-			to, ok1 := info.TypeOf(ce).Underlying().(*types.Basic)
-			if !ok1 || to.Kind() != types.Int32 {
-				return true
-			}
-			if ix, isIx := ast.Unparen(ce.Args[0]).(*ast.IndexExpr); isIx {
-				if b, isB := info.TypeOf(ix.X).Underlying().(*types.Basic); isB && b.Info()&types.IsString != 0 {
-					bad = ce.Pos()
-				}
-			}
-			return true
-		})
+		vi := analyseVars(info, fi.Decl)
+		fgR := NewFGraph(fi.Decl.Body, info)
+		fgR.SolveFacts(vi)
+		prR := &prover{info: info, vi: vi, fg: fgR, body: fi.Decl.Body}
+		for _, ce := range byteAsRuneSites(info, fi.Decl.Body, func(arg ast.Expr, pos token.Pos) bool {
+			facts := fgR.FactsAtPos(pos)
+			return prR.proveRange(arg, facts, 0, 0x7f) != "" || prR.holdsText(exprStr(arg)+" < 128", facts)
+		}) {
+			bad = ce.Pos()
+		}
 		n++
-		r.Check(bad == token.NoPos, rule, fi.Name, "no byte-as-rune", c.Pos(fi.Decl.Pos()), "scan: no indexed byte of a string is converted to a rune", "a byte of the template string is converted to a rune (at "+c.Pos(bad)+"): the scanner indexes runes, so after any multi-byte character the wrong byte is read")
+		r.Check(bad == token.NoPos, rule, fi.Name, "no byte-as-rune", c.Pos(fi.Decl.Pos()), "scan: no byte of the template is converted to a rune", "a byte of the template string is treated as a code point (at "+c.Pos(bad)+"): continuation bytes of multi-byte characters are misclassified (0x85 and 0xA0 count as white space) or the wrong byte is read after any multi-byte character")
 		// (2) one whitespace predicate
 		usesIsSpace := false
 		var adhoc []string
@@ -321,6 +316,7 @@ func runC11(c *Ctx, r *Report) {
 	c11Docs(c, r)
 	c11Clamp(c, r)
 	c11Csv(c, r)
+	c11CsvEncoded(c, r)
 	// (d) a helper is a function of its arguments: stage closures keep no state between evaluations
 	c05StagePurity(c, r, "C11-d")
 }
@@ -658,4 +654,147 @@ func c11Csv(c *Ctx, r *Report) {
 	})
 	r.Floor(rule, 2, "comma-only wrap and plain return")
 	_ = n
+}
+
+// c09ArgsCompiled (C09-a/args-compiled): every argument of a statement goes
+// through the same recursive Compile (which is what applies escapes, quotes and
+// nesting uniformly); no path through the argument loop hands an argument to a
+// stage without compiling it.
+func c09ArgsCompiled(c *Ctx, r *Report) {
+	const rule = "C09-a/args-compiled"
+	fi := c.MustFunc(r, rule, exprPkg, "(*KeyBuilder).Compile")
+	if fi == nil {
+		return
+	}
+	info := fi.Pkg.TypesInfo
+	fg := NewFGraph(fi.Decl.Body, info)
+	n := 0
+	ast.Inspect(fi.Decl.Body, func(x ast.Node) bool {
+		rs, ok := x.(*ast.RangeStmt)
+		if !ok || rs.Value == nil {
+			return true
+		}
+		v := identObj(info, rs.Value)
+		if v == nil {
+			return true
+		}
+		// the loop that feeds a stage factory: its body appends to a []KeyBuilderStage
+		feeds := false
+		ast.Inspect(rs.Body, func(y ast.Node) bool {
+			if ce, ok := y.(*ast.CallExpr); ok && calleeName(info, ce) == "builtin.append" && len(ce.Args) > 0 {
+				if sl, ok := info.TypeOf(ce.Args[0]).Underlying().(*types.Slice); ok && isNamed(sl.Elem(), exprPkg, "KeyBuilderStage") {
+					feeds = true
+				}
+			}
+			return true
+		})
+		if !feeds {
+			return true
+		}
+		n++
+		bodyHead, loopHead := -1, -1
+		for _, nd := range fg.Nodes {
+			if nd.N == nil && nd.Block != nil && nd.Block.Stmt == ast.Stmt(rs) {
+				switch nd.Block.Kind.String() {
+				case "RangeBody":
+					bodyHead = nd.ID
+				case "RangeLoop":
+					loopHead = nd.ID
+				}
+			}
+		}
+		if bodyHead < 0 || loopHead < 0 {
+			r.Undecided(rule, fi.Name, "argument loop", c.Pos(rs.Pos()), "loop structure not recognised")
+			return true
+		}
+		compiles := func(nd *FNode) bool {
+			if nd.N == nil {
+				return false
+			}
+			hit := false
+			inspectNoLit(nd.N, func(y ast.Node) bool {
+				if ce, ok := y.(*ast.CallExpr); ok && len(ce.Args) == 1 && identObj(info, ce.Args[0]) == v {
+					if f := calleeFunc(info, ce); f != nil && f == fi.Obj {
+						hit = true
+					}
+				}
+				return true
+			})
+			return hit
+		}
+		bypass := fg.Reaches(bodyHead, loopHead, compiles)
+		r.Check(!bypass, rule, fi.Name, "for .. range "+exprStr(rs.X), c.Pos(rs.Pos()), "path: every argument is compiled by the recursive Compile on every path through the loop",
+			"an argument can reach the stage list without going through the recursive Compile: escapes, quotes and nesting are then handled differently for such arguments (e.g. a literal argument keeps one more level of backslashes)")
+		return true
+	})
+	if n == 0 {
+		r.Undecided(rule, fi.Name, "argument loop", c.Pos(fi.Decl.Pos()), "the loop that compiles the arguments of a statement was not found")
+	}
+	r.Floor(rule, 1, "argument loop of Compile")
+}
+
+// c11CsvEncoded (C11-c/csv-encoded): whatever {csv ..} emits for an argument
+// went through csvItemEncode - in the stage literal every evaluation of an
+// argument stage is the operand of csvItemEncode, and the factory never
+// returns an argument stage itself (no arity-specific shortcut).
+func c11CsvEncoded(c *Ctx, r *Report) {
+	const rule = "C11-c/csv-encoded"
+	fi := c.MustFunc(r, rule, stdlibPkg, "kfCsv")
+	if fi == nil {
+		return
+	}
+	info := fi.Pkg.TypesInfo
+	var args types.Object
+	if fi.Decl.Type.Params != nil && len(fi.Decl.Type.Params.List) == 1 && len(fi.Decl.Type.Params.List[0].Names) == 1 {
+		args = info.Defs[fi.Decl.Type.Params.List[0].Names[0]]
+	}
+	isArgStage := func(e ast.Expr) bool {
+		e = ast.Unparen(e)
+		if ix, ok := e.(*ast.IndexExpr); ok {
+			return identObj(info, ix.X) == args
+		}
+		if o, ok := identObj(info, e).(*types.Var); ok && o != nil && o != args {
+			// a local or range variable holding one of the argument stages
+			return isNamed(o.Type(), exprPkg, "KeyBuilderStage") && within(fi.Decl.Body, o.Pos())
+		}
+		return false
+	}
+	// (1) factory returns
+	inspectNoLit(fi.Decl.Body, func(x ast.Node) bool {
+		rs, ok := x.(*ast.ReturnStmt)
+		if !ok || len(rs.Results) == 0 {
+			return true
+		}
+		e := ast.Unparen(rs.Results[0])
+		if ce, ok := e.(*ast.CallExpr); ok && isConversion(info, ce) && len(ce.Args) == 1 {
+			e = ast.Unparen(ce.Args[0])
+		}
+		r.Check(!isArgStage(e), rule, fi.Name, stmtStr(rs), c.Pos(rs.Pos()), "shape: the factory returns its own encoding stage (or a literal/error stage)",
+			"kfCsv returns an argument stage unchanged: for that arity the value is emitted without CSV quoting, so a value containing a comma, quote or newline no longer parses back to the argument")
+		return true
+	})
+	// (2) every evaluation of an argument stage is encoded
+	encoded := map[ast.Node]bool{}
+	var evals []*ast.CallExpr
+	ast.Inspect(fi.Decl.Body, func(x ast.Node) bool {
+		ce, ok := x.(*ast.CallExpr)
+		if !ok {
+			return true
+		}
+		if calleeName(info, ce) == stdlibPkg+".csvItemEncode" && len(ce.Args) == 1 {
+			encoded[ast.Unparen(ce.Args[0])] = true
+		}
+		if isArgStage(ce.Fun) {
+			evals = append(evals, ce)
+		}
+		return true
+	})
+	for _, ev := range evals {
+		r.Check(encoded[ev], rule, fi.Name, exprStr(ev), c.Pos(ev.Pos()), "escaped: the argument's value is the operand of csvItemEncode",
+			"an argument of {csv ..} is evaluated and used without passing through csvItemEncode: its commas and quotes reach the output raw")
+	}
+	if len(evals) == 0 {
+		r.Bad(rule, fi.Name, "argument evaluation", c.Pos(fi.Decl.Pos()), "no evaluation of an argument stage found in kfCsv")
+	}
+	r.Floor(rule, 2, "factory returns and the argument evaluation")
 }
